@@ -260,7 +260,7 @@ prop(
     level_text="Generated-input search with an independently built expected configuration (round trip description -> text -> parser -> view) "
                "and single-field invalidations that must be rejected.",
     level_note="Trusted: the TOML emitter in desc.go (spellings limited to what TOML 1.0 defines), the view functions in c10_test.go. Not asserted: "
-               "absent collision_mode / channel / mapping keys, case variants of field names (go-toml matches them case-insensitively), "
+               "absent collision_mode / channel / mapping keys, "
                "controller numbers 120-127, offsets on action axes.",
     technique="property-based testing (rapid): round-trip against independently built expected value + single-field invalidation",
 )
